@@ -615,6 +615,9 @@ func Run(c *core.Ctx, focus string) {
 			}
 		}
 	}
+	if focus == "C07" {
+		restartScenario(c, base)
+	}
 	c.SetExtra("bounds", map[string]interface{}{"export_config": exportCfg})
 }
 
